@@ -51,8 +51,12 @@ func verifBuildStrategy(kind int, initial int) *verifStack {
 		v.precise = strategy.NewPreciseStrategy(initial)
 		v.s = v.precise
 	case 2:
-		v.la = strategy.NewLookupPartitionWithMetricRegistry("a", verifFa, 1, core.EmptyMetricRegistryInstance)
-		v.lb = strategy.NewLookupPartitionWithMetricRegistry("b", verifFb, 1, core.EmptyMetricRegistryInstance)
+		// the partitions are created with an arbitrary initial total (callers pass 1, the total limit,
+		// or anything else): the strategy's constructor must size them from ITS limit
+		pl := verif.Int("partition.initLimit")
+		verif.Assume(pl >= 1 && pl < 1<<30)
+		v.la = strategy.NewLookupPartitionWithMetricRegistry("a", verifFa, int32(pl), core.EmptyMetricRegistryInstance)
+		v.lb = strategy.NewLookupPartitionWithMetricRegistry("b", verifFb, int32(pl), core.EmptyMetricRegistryInstance)
 		v.lookup, _ = strategy.NewLookupPartitionStrategyWithMetricRegistry(map[string]*strategy.LookupPartition{"a": v.la, "b": v.lb}, nil, int32(initial), core.EmptyMetricRegistryInstance)
 		v.s = v.lookup
 	default:
@@ -107,7 +111,9 @@ func VerifC05_Enforcement() {
 	dynamic := kind >= 2 && verif.Choice("dynamicPartitions", 2) == 1
 	if dynamic {
 		if kind == 2 {
-			lc = strategy.NewLookupPartitionWithMetricRegistry("c", fc, 1, core.EmptyMetricRegistryInstance)
+			plc := verif.Int("partition.c.initLimit")
+			verif.Assume(plc >= 1 && plc < 1<<30)
+			lc = strategy.NewLookupPartitionWithMetricRegistry("c", fc, int32(plc), core.EmptyMetricRegistryInstance)
 			verif.Assert("dynamic-add-ok", v.lookup.AddPartition("c", lc))
 			verif.Assert("dynamic-add-share-of-current-limit", lc.Limit() == verifShare(floor1(e0), fc))
 		} else {
